@@ -194,12 +194,27 @@ func (s *scanner) protoStream() [][]byte {
 		}
 		return b
 	}
+	// mostly messages; at most one spoiler, usually late in the stream
 	var stream []byte
-	for k := 1 + r.Intn(6); k > 0; k-- {
-		stream = append(stream, item()...)
+	good := func() []byte {
+		for {
+			b := item()
+			if len(b) > 2 && b[0]&0xe0 == 0x80 {
+				return b
+			}
+		}
 	}
-	if len(stream) == 0 {
-		stream = []byte{0x81, 0x01}
+	n := r.Intn(5)
+	spoil := -1
+	if r.Intn(3) != 0 {
+		spoil = r.Intn(n + 1)
+	}
+	for k := 0; k <= n; k++ {
+		if k == spoil {
+			stream = append(stream, item()...)
+		} else {
+			stream = append(stream, good()...)
+		}
 	}
 	// cut the stream into 1..6 segments at arbitrary points
 	var segs [][]byte
